@@ -193,8 +193,10 @@ ExpireGuards(s, acks, t, judgeLate, early) ==
       G("C04", judgeLate => \A i \in 1..Len(acks) : acks[i] \in DOMAIN s.lease => t <= s.lease[acks[i]].hi) }
 
 ModGuards(s, mods, early) ==
-    { G("C05", \A i \in 1..Len(mods) :
-                  mods[i].dl # None => (mods[i].dl >= mods[i].lo - early /\ mods[i].dl <= mods[i].hi)) }
+    { \* a deadline set EARLIER than the request asked for ends the consumer's lease while the consumer
+      \* still relies on it: the message is handed out again during an outstanding delivery (C03)
+      G("C03,C05", \A i \in 1..Len(mods) : mods[i].dl # None => mods[i].dl >= mods[i].lo - early),
+      G("C05", \A i \in 1..Len(mods) : mods[i].dl # None => mods[i].dl <= mods[i].hi) }
 
 (***************************************************************************)
 (* Initial state.                                                          *)
@@ -352,7 +354,9 @@ SubPost_G(si, ids) ==
     { G("C01", ids # <<>> => (SeqSet(ids) \subseteq DOMAIN pubs
                                /\ \A i \in 1..Len(ids) : ids[i] \in DOMAIN pubs => pubs[ids[i]].ti = S[si].topic)),
       G("C01", ids # <<>> => S[si].inbox # <<>>),        \* a post nobody accepted is spurious
-      G("C08", (ids # <<>> /\ S[si].inbox # <<>>) => Head(S[si].inbox) = ids) }
+      \* posted in the order accepted: a post that is not the oldest accepted batch either overtook
+      \* it (C08) or the older batch was dropped on its way (C01: accepted, never posted)
+      G("C01,C08", (ids # <<>> /\ S[si].inbox # <<>>) => Head(S[si].inbox) = ids) }
 SubPost_A(si, ids) ==
     /\ S' = [S EXCEPT ![si] = IF ids = <<>> THEN @
                               ELSE SubAfterPost([@ EXCEPT !.inbox = Tail(@)], ids)]
